@@ -358,6 +358,56 @@ theorem takeView_invV {σ σ' : St} {c : Nat} (hr : InvR σ) (hl : InvL σ) (hv 
     rw [(htc t).2, hnt]
     exact hv.srcF f hp t ht
 
+theorem loaderRef_invV {σ σ' : St} (hr : InvR σ) (hv : InvV σ)
+    (h : σ.loaderRef = some σ') : InvV σ' := by
+  obtain ⟨_, hσ⟩ := loaderRef_spec h
+  have hfl : σ'.files = refFiles σ.files (σ.ooo ++ σ.ord) := by rw [hσ]
+  have hvs : σ'.views = σ.views ++ [σ.loaderView] := by rw [hσ]
+  have hf : σ'.hist = σ.hist ∧ σ'.active = σ.active ∧ σ'.nextTab = σ.nextTab ∧ σ'.tables = σ.tables := by
+    rw [hσ]; simp
+  obtain ⟨hhist, hact, hnt, htb⟩ := hf
+  have hfc : ∀ f, (σ'.files f).cells = (σ.files f).cells ∧ (σ'.files f).srcs = (σ.files f).srcs ∧
+      (σ'.files f).present = (σ.files f).present := by
+    intro f; rw [hfl, refFiles_apply]; exact ⟨rfl, rfl, rfl⟩
+  have hcells : ∀ v, σ'.viewCells v = σ.viewCells v := by
+    intro v
+    exact viewCells_congr _ _ _ (fun _ t _ => by rw [htb]) (fun f _ => (hfc f).1)
+  refine ⟨?_, ?_, ?_, ?_, ?_⟩
+  · intro v hvm hok
+    rw [hvs] at hvm
+    simp only [List.mem_append, List.mem_singleton] at hvm
+    rw [hcells]
+    rcases hvm with hvm | rfl
+    · exact hv.sound v hvm hok
+    · simp [St.loaderView] at hok
+  · intro v hvm
+    rw [hvs] at hvm
+    simp only [List.mem_append, List.mem_singleton] at hvm
+    rw [hhist]
+    rcases hvm with hvm | rfl
+    · exact hv.chain v hvm
+    · exact ⟨List.suffix_refl _, List.suffix_refl _⟩
+  · intro v hvm a ha hva hm
+    rw [hvs] at hvm
+    simp only [List.mem_append, List.mem_singleton] at hvm
+    rw [hhist]
+    rw [hact] at ha
+    rcases hvm with hvm | rfl
+    · exact hv.cur v hvm a ha hva hm
+    · simp [St.loaderView] at hva
+  · intro v hvm t ht f hf
+    rw [hvs] at hvm
+    simp only [List.mem_append, List.mem_singleton] at hvm
+    rw [(hfc f).2.1]
+    rcases hvm with hvm | rfl
+    · exact hv.src v hvm t ht f hf
+    · simp [St.loaderView] at ht
+  · intro f hp t ht
+    rw [(hfc f).2.2] at hp
+    rw [(hfc f).2.1] at ht
+    rw [htb, hnt]
+    exact hv.srcF f hp t ht
+
 theorem openCursors_invV {σ σ' : St} {i : Nat} (hv : InvV σ)
     (h : σ.openCursors i = some σ') : InvV σ' := by
   obtain ⟨v, hvi, hm, hσ⟩ := openCursors_spec h
@@ -571,6 +621,7 @@ theorem step_invV {σ σ' : St} (a : Act) (hr : InvR σ) (hl : InvL σ) (hv : In
   | publish o u => exact publish_invV hr hv h
   | dropSnapshot => exact dropSnapshot_invV hr hv h
   | takeView c => exact takeView_invV hr hl hv h
+  | loaderRef => exact loaderRef_invV hr hv h
   | openCursors i => exact openCursors_invV hv h
   | readView i =>
     simp only [St.step] at h
